@@ -4,6 +4,7 @@ pub mod c01;
 pub mod c02;
 pub mod c03;
 pub mod c04;
+pub mod c05;
 pub mod c06;
 pub mod c07;
 pub mod c08;
@@ -27,6 +28,7 @@ pub fn run(id: &str, e: &Engine) -> bool {
 		"C02" => c02::check(e),
 		"C03" => c03::check(e),
 		"C04" => c04::check(e),
+		"C05" => c05::check(e),
 		"C06" => c06::check(e),
 		"C07" => c07::check(e),
 		"C08" => c08::check(e),
@@ -47,4 +49,4 @@ pub fn run(id: &str, e: &Engine) -> bool {
 	true
 }
 
-pub const ALL: &[&str] = &["C01", "C02", "C03", "C04", "C06", "C07", "C08", "C09", "C10", "C11", "C12", "C13", "C14", "C15", "C16", "C17", "C18", "C19", "C20"];
+pub const ALL: &[&str] = &["C01", "C02", "C03", "C04", "C05", "C06", "C07", "C08", "C09", "C10", "C11", "C12", "C13", "C14", "C15", "C16", "C17", "C18", "C19", "C20"];
